@@ -97,7 +97,12 @@ pub fn run(ctx: &Ctx) -> Outcome {
         } else {
             tier.pick(3 * bs + 2, 4 * bs + 3).max(if fam.starts_with("ctr") || *fam == "belt" { (par + 2) * bs + 1 } else { 0 })
         };
-        let lens: Vec<usize> = if block_only { (0..=lmax / bs).map(|n| n * bs).collect() } else { byte_lengths(bs, lmax) };
+        let mut lens: Vec<usize> = if block_only { (0..=lmax / bs).map(|n| n * bs).collect() } else { byte_lengths(bs, lmax) };
+        let mut lmax = lmax;
+        if bs <= 32 && !sweep {
+            lens.extend(if block_only { vec![9 * bs, 17 * bs] } else { long_lengths(bs) });
+            lmax = lmax.max(17 * bs + 1);
+        }
         let enc_fes = family_frontends(cfg, fam, Dir::Enc);
         let dec_fes = family_frontends(cfg, fam, Dir::Dec);
         let iv_len = if *fam == "ige" { 2 * bs } else { bs };
